@@ -458,24 +458,24 @@ CellsCount ==
 PairLaws ==
   mode \in {"pair", "big"} =>          \* (the pairs of "triple" are those of "pair")
     LET i == Inter(ra, rb)  u == Union(ra, rb)
-    IN  /\ CellsP(i) = CellsP(ra) \cap CellsP(rb)
-        /\ (i = Null) = (CellsP(ra) \cap CellsP(rb) = {})
+        A == CellsP(ra)  B == CellsP(rb)  I == CellsP(i)  U == CellsP(u)
+    IN  /\ I = A \cap B
+        /\ (i = Null) = (A \cap B = {})
         /\ i = Null \/ IsRect(i, GCols, GRows)
         /\ IsRect(u, GCols, GRows)
-        /\ CellsP(ra) \cup CellsP(rb) \subseteq CellsP(u)
+        /\ A \cup B \subseteq U
         /\ IF mode = "big"
            THEN \* rectangles are closed under intersection, so "least" is
                 \* "no side can be pulled in by one cell"
                 \A k \in 1..4 :
                   LET v == [u EXCEPT ![k] = IF k <= 2 THEN u[k] + 1 ELSE u[k] - 1]
-                  IN  ~(CellsP(ra) \cup CellsP(rb) \subseteq CellsP(v))
+                  IN  ~(A \cup B \subseteq CellsP(v))
            ELSE \A c1 \in GCols, c2 \in GCols, r1 \in GRows, r2 \in GRows :
-                  (c1 <= c2 /\ r1 <= r2
-                   /\ CellsP(ra) \cup CellsP(rb) \subseteq CellsP(Rect(c1, r1, c2, r2)))
-                  => CellsP(u) \subseteq CellsP(Rect(c1, r1, c2, r2))
+                  (c1 <= c2 /\ r1 <= r2 /\ A \cup B \subseteq CellsP(Rect(c1, r1, c2, r2)))
+                  => U \subseteq CellsP(Rect(c1, r1, c2, r2))
         /\ i = Inter(rb, ra) /\ u = Union(rb, ra)
         /\ Inter(ra, ra) = ra /\ Union(ra, ra) = ra
-        /\ Subset(ra, rb) = (CellsP(ra) \subseteq CellsP(rb))
+        /\ Subset(ra, rb) = (A \subseteq B)
         /\ Subset(ra, rb) = (i = ra)
         /\ Subset(ra, rb) = (u = rb)
         /\ Inter(ra, u) = ra /\ (i = Null \/ Union(ra, i) = ra)     \* absorption
@@ -543,7 +543,7 @@ ExportPair ==
                            p \in {rb[1], rb[3]} \X {rb[2], rb[4]} },
    rows |-> IF mode = "pair" /\ ra = rb THEN RowsOf(ra) ELSE <<>>,
    cols |-> IF mode = "pair" /\ ra = rb THEN ColsOf(ra) ELSE <<>>,
-   combos |-> SheetCombos]
+   combos |-> IF ra = rb /\ RW(ra) = 1 /\ RH(ra) = 1 THEN SheetCombos ELSE {}]
 
 ExportTriple ==
   [m |-> "triple", a |-> ra, b |-> rb, c |-> rc,
